@@ -29,4 +29,7 @@ def run(ctx):
     c, callees = AR.chunk_argreduce_contract()
     ex, obs = add_to_ctx(ctx, c, callees)
     n += len(obs)
+    from ..pyvc import conformance
+
+    conformance.add_to_ctx(ctx, ["chunk_reduce on an arg-reduction"])
     return f"arg-reduction pair algebra, _pick_second, chunk_argreduce (reports the global position idx[p] of the block-local extreme p, a member of the group with the reported value): {n} obligations."
